@@ -134,7 +134,9 @@ Definition marshal_array (pj : pjson) (a : cont) : outcome bytes :=
        match r with
        | (it', None, _) => fin it' out
        | (it', Some el, ty) =>
-         if (ty =? TypeNone)%N then fin it' out
+         if (ty =? TypeNone)%N then
+           (* no (remaining) elements: AdvanceIter consumed the closing tag (fix F16) *)
+           if (i_t it' =? TagArrayEnd)%N then Ok (n2b 91 :: out ++ [n2b 93]) else fin it' out
          else
            do s <- marshal_iter pj el;
            do tg <- peek_next_tag pj it';
